@@ -231,6 +231,20 @@ func (C04) Decode(raw json.RawMessage) (any, error) {
 	return &s, err
 }
 
+// dedupeByKey keeps one violation per key (the first): how MANY entries show a finding is not
+// part of the verdict.
+func dedupeByKey(out *sim.Outcome) {
+	seen := map[string]bool{}
+	var vs []sim.Violation
+	for _, v := range out.Violations {
+		if !seen[v.Key] {
+			seen[v.Key] = true
+			vs = append(vs, v)
+		}
+	}
+	out.Violations = vs
+}
+
 func countEntries(s *ImageSpec) int {
 	n := 0
 	for _, l := range s.Layers {
@@ -470,7 +484,28 @@ func (C04) Run(t *testing.T, scAny any) *sim.Outcome {
 			for i := range views {
 				explained[i] = RefOverlay(&sc.Image, upto[i], allDev, i == len(plan)-1)
 			}
-			checkRequirerLaw(out, sc, views, rviews, explained, ctxs)
+			// Entries of the final tree that no walk reaches (below a whiteout node or a non-directory),
+			// and everything above them: whether the pruning deletes THEIR backing files depends on the
+			// order in which Go iterates a map inside the loader (a node removed together with its
+			// parent's subtree keeps its file).  Their readability in earlier views is not asserted.
+			noPrune := DevSet{}
+			for k, v := range allDev {
+				noPrune[k] = v && k != DevPrune
+			}
+			pre := RefOverlay(&sc.Image, upto[len(upto)-1], noPrune, false)
+			unstable := map[string]bool{}
+			for q := range pre.Look {
+				if _, listed := pre.Walk[q]; !listed {
+					unstable[q] = true
+					for _, a := range ancestors(q) {
+						unstable[a] = true
+					}
+				}
+			}
+			if len(unstable) > 0 {
+				out.Count("probe_backing_file_removal_depends_on_map_order", 1)
+			}
+			checkRequirerLaw(out, sc, views, rviews, explained, unstable, ctxs)
 		}
 	}
 
@@ -480,10 +515,11 @@ func (C04) Run(t *testing.T, scAny any) *sim.Outcome {
 		out.Executions++
 		checkSquashed(out, sc, sb, views[len(views)-1], strict[len(strict)-1], ctxs)
 	}
+	dedupeByKey(out)
 	return out
 }
 
-func checkRequirerLaw(out *sim.Outcome, sc *C04Scenario, full, restr []*ViewObs, explained []*ModelView, ctxs string) {
+func checkRequirerLaw(out *sim.Outcome, sc *C04Scenario, full, restr []*ViewObs, explained []*ModelView, unstable map[string]bool, ctxs string) {
 	if len(full) != len(restr) {
 		out.Violate("requirer-law", "requirer-law:chain-count", "restricted load has %d views, full load %d; %s", len(restr), len(full), ctxs)
 		return
@@ -554,6 +590,9 @@ func checkRequirerLaw(out *sim.Outcome, sc *C04Scenario, full, restr []*ViewObs,
 			return fn.Type == "f" && rn.Type == "f" && rn.Data == "" && rn.Err == "read:notexist" && rn.Size == fn.Size && rn.Perm == fn.Perm
 		}
 		for _, p := range sortedKeys(r.Walk) {
+			if fn, ok := f.Walk[p]; ok && i != last && unstable[p] && fn.Type == "f" && r.Walk[p].Type == "f" {
+				continue // readable or not: depends on map iteration order inside the loader
+			}
 			if fn, ok := f.Walk[p]; ok && fn != r.Walk[p] && i != last && mayDrop(p) && unreadable(fn, r.Walk[p]) {
 				out.Violate("requirer-law:non-required-listed-but-unreadable", "requirer-law:non-required-listed-but-unreadable", "view %d (not the final one): the non-required file %s is still listed with the requirer, but its content can no longer be read (%s); fully loaded it is %s; %s", i, p, r.Walk[p], fn, ctxs)
 			} else if !ok || fn != r.Walk[p] {
@@ -585,6 +624,21 @@ func checkRequirerLaw(out *sim.Outcome, sc *C04Scenario, full, restr []*ViewObs,
 				continue
 			}
 			_, listed := f.Walk[p]
+			if i != last && unreadable(fn, rn) {
+				// through a symlink the file reached may be one of the order-dependent ones
+				viaUnstable := unstable[p]
+				if e := newest[p]; e != nil && e.Kind == "l" {
+					if t, ok := linkTarget(e.Path, e.Target); ok && unstable[t] {
+						viaUnstable = true
+					}
+				}
+				if viaUnstable || ownType(p) == "l" || !listed {
+					continue
+				}
+			}
+			if i != last && unstable[p] && fn.Type == "f" && rn.Type == "f" {
+				continue
+			}
 			if i != last && unreadable(fn, rn) && !(required[p] && listed && ownType(p) == "f") {
 				// a file whose backing file the final view's pruning deleted, seen directly, through a
 				// symlink, or as a lookup-only entry
